@@ -1,4 +1,5 @@
 import OjgVerif.Reflect.Lemmas
+import OjgVerif.Props.C15
 import OjgVerif.Reflect.EncOmit
 import OjgVerif.Reflect.EncOmitAlt
 import OjgVerif.Gen.ReflectEnc
@@ -22,8 +23,22 @@ indented, sen tight and indented; `oj.Marshal` and `oj.Write` are the tight/inde
   writer gives `{}`, the indented one `{"a":""}` — finding `C15-omitnil-tight-empty-string`);
   `tight_indent_agree_omit_repaired`: with the tight string test repaired they agree always.
 
-alt.Decompose and pretty under the omit options are not modelled (known finding
-`C15-omit-options`); the run compares `encodeO` with the six oj/sen entry points under all four
+* `alt_omitNil_is_dropNulls`, `alt_omitNil_eq_pruned_reference`: under `OmitNil` without `OmitEmpty`
+  alt.Decompose (model `Reflect/EncOmitAlt.lean`) describes the tree it describes without the option —
+  on untriggered runs the documented reference tree — less every object member whose value is null,
+  hereditarily; `encodeA_off_eq_encode`, the witnesses `omit_oj_alt_differ_witness`,
+  `omit_pretty_alt_differ_witness`, and `omit_tests_alt_pretty_match_source` are about the alt and
+  pretty models; `pretty_alt_agree_omitNil`: under `OmitNil` without `OmitEmpty` pretty.JSON and
+  alt.Decompose describe the same tree (under `OmitEmpty` they differ: the witness).
+
+* `oj_omitNil_is_dropNulls_partial`: under `OmitNil` (not strict) the oj/sen writers describe the tree
+  they describe without the option less its null members on every run that is `omitNilAligned` (meets
+  no map, no pointer or interface whose content is written as null);
+  `encoders_agree_current_omitNil_partial`: on such runs that are also `untriggered`, oj, sen,
+  alt.Decompose and pretty.JSON ALL describe the reference tree less its null members.
+
+Under `OmitEmpty`, and under `OmitNil` inside maps, the encoders differ (known finding
+`C15-omit-options`, witnesses above) and no agreement is proved; the run compares `encodeO` with the six oj/sen entry points under all four
 combinations of the two options (`harness/cmd/reflect/c15_omit.go`). -/
 namespace OjgVerif.C15
 open OjgVerif OjgVerif.Reflect
@@ -329,6 +344,491 @@ and filtered by `condMapSet` in alt.Decompose (`{}`) -/
 theorem omit_pretty_alt_differ_witness :
     jvBeq (encodeP Dev.current omitEmptyOnly 4 4 mapStrAny mapFalse) (.obj [("f".toUTF8.toList, .bool false)]) = true ∧
     jvBeq (encodeA Dev.current omitEmptyOnly 4 4 mapStrAny mapFalse) (.obj []) = true := by
+  decide +kernel
+
+/-! ## alt.Decompose under OmitNil alone: the documented tree less its null members -/
+
+def isNullJ : JV → Bool
+  | .null => true
+  | _ => false
+
+mutual
+  /-- remove every object member whose value is null, hereditarily: what the documentation of
+  `OmitNil` prescribes for a tree -/
+  def dropNulls : JV → JV
+    | .arr xs => .arr (dropNullsL xs)
+    | .obj kvs => .obj (dropNullsK kvs)
+    | j => j
+  def dropNullsL : List JV → List JV
+    | [] => []
+    | x :: r => dropNulls x :: dropNullsL r
+  def dropNullsK : List (Bytes × JV) → List (Bytes × JV)
+    | [] => []
+    | (k, x) :: r => if isNullJ x then dropNullsK r else (k, dropNulls x) :: dropNullsK r
+end
+
+theorem dropNullsL_eq_map : ∀ xs : List JV, dropNullsL xs = xs.map dropNulls
+  | [] => rfl
+  | x :: r => by simp [dropNullsL, dropNullsL_eq_map r]
+
+def keepN (m : Bytes × JV) : Option (Bytes × JV) := if isNullJ m.2 then none else some (m.1, dropNulls m.2)
+
+theorem dropNullsK_eq_filterMap : ∀ kvs : List (Bytes × JV), dropNullsK kvs = kvs.filterMap keepN
+  | [] => rfl
+  | (k, x) :: r => by
+    cases h : isNullJ x <;> simp [dropNullsK, keepN, h, dropNullsK_eq_filterMap r]
+
+theorem isNullJ_dropNulls (j : JV) : isNullJ (dropNulls j) = isNullJ j := by
+  cases j <;> simp [dropNulls, isNullJ]
+
+theorem altMemberDropped_nilOnly (o : Opts) (hn : o.omitNil = true) (he : o.omitEmpty = false) (b : Bool) (j : JV) :
+    altMemberDropped o b j = isNullJ j := by
+  cases j <;> simp [altMemberDropped, isNullJ, hn, he]
+
+theorem dropNulls_panicMark : dropNulls panicMark = panicMark := rfl
+
+theorem dropNulls_bytesAsNumbers (b : Bytes) : dropNulls (bytesAsNumbers b) = bytesAsNumbers b := by
+  simp only [bytesAsNumbers, dropNulls, dropNullsL_eq_map, List.map_map]
+  congr 1
+
+theorem dropNulls_bytesAsJV (n : Nat) (b : Bytes) : dropNulls (bytesAsJV n b) = bytesAsJV n b := by
+  unfold bytesAsJV
+  split
+  · rfl
+  · split
+    · simp only [dropNulls, dropNullsL_eq_map, List.map_map]; congr 1
+    · rfl
+
+theorem fieldMember_dropNulls (q : Quirks) (enc : Bool → GoType → GoVal → JV) (sv : GoVal) (fi : Finfo) :
+    fieldMember q (fun a b c => dropNulls (enc a b c)) sv fi =
+      (fieldMember q enc sv fi).map (fun m => (m.1, dropNulls m.2)) := by
+  unfold fieldMember
+  cases fieldByIndex sv fi.index with
+  | none => by_cases h : q.embNilPanic = true <;> simp [h, dropNulls_panicMark]
+  | some x =>
+    by_cases h1 : (fi.omitE && isEmptyVal x) = true
+    · simp [h1]
+    · simp only [h1]
+      cases h2 : (if fi.asStr = true then scalarText x else none) with
+      | some t => simp [dropNulls]
+      | none => cases fi.ty <;> simp
+
+theorem fieldMemberA_nilOnly (q : Quirks) (o : Opts) (hn : o.omitNil = true) (he : o.omitEmpty = false)
+    (enc : Bool → GoType → GoVal → JV) (sv : GoVal) (fi : Finfo) :
+    fieldMemberA q o (fun a b c => dropNulls (enc a b c)) sv fi = (fieldMember q enc sv fi).bind keepN := by
+  unfold fieldMemberA
+  rw [fieldMember_dropNulls]
+  cases hm : fieldMember q enc sv fi with
+  | none => rfl
+  | some m =>
+    simp only [Option.map_some, Option.bind_some]
+    cases hx : fieldByIndex sv fi.index with
+    | none =>
+      -- only the panic marker can come from a failed lookup
+      unfold fieldMember at hm
+      rw [hx] at hm
+      by_cases h : q.embNilPanic = true
+      · simp [h] at hm; subst hm; simp [keepN, isNullJ, panicMark, dropNulls]
+      · simp [h] at hm
+    | some x =>
+      simp only [keepA, keepN, altMemberDropped_nilOnly o hn he, isNullJ_dropNulls]
+
+theorem encValA_nilOnly (q : Quirks) (o : Opts) (hn : o.omitNil = true) (he : o.omitEmpty = false)
+    (plan : Bool → List (FieldHdr × GoType) → List Finfo) :
+    ∀ (vf : Nat) (vi ie oe : Bool) (t : GoType) (v : GoVal),
+      encValA q o plan vf vi ie oe t v = dropNulls (encVal q o plan vf vi ie oe t v) := by
+  intro vf
+  induction vf with
+  | zero => intro vi ie oe t v; rfl
+  | succ n ih =>
+    intro vi ie oe t v
+    have ihf : ∀ (a b c : Bool) (e : GoType),
+        encValA q o plan n a b c e = fun x => dropNulls (encVal q o plan n a b c e x) := by
+      intro a b c e; funext x; exact ih a b c e x
+    cases t <;> cases v <;>
+      simp only [encValA, encVal, ih, ihf, dropNulls, dropNulls_panicMark, dropNulls_bytesAsNumbers, dropNulls_bytesAsJV,
+        apply_ite dropNulls, dropNullsK]
+    case slice.nilSlice e => cases e <;> simp [dropNulls, dropNullsL, apply_ite dropNulls]
+    case slice.slice e xs => simp only [dropNullsL_eq_map, List.map_map]; rfl
+    case array.arr k e xs => simp only [dropNullsL_eq_map, List.map_map]; rfl
+    case map.map e kvs =>
+      simp only [dropNullsK_eq_filterMap, List.filterMap_map]
+      congr 1
+      apply filterMap_congr'
+      intro kv _
+      simp only [Function.comp, keepA, keepN, altMemberDropped_nilOnly o hn he]
+      by_cases h : (q.mapNilNull && isNilContainer kv.2) = true
+      · simp [h, isNullJ]
+      · simp [h, isNullJ_dropNulls]
+    case struct.struct name pkg fs vs =>
+      simp only [dropNullsK_eq_filterMap, List.filterMap_append]
+      congr 1
+      congr 1
+      · unfold createMember
+        split <;> simp [keepN, isNullJ, dropNulls]
+      · rw [List.filterMap_filterMap]
+        apply filterMap_congr'
+        intro fi _
+        exact fieldMemberA_nilOnly q o hn he _ (.struct vs) fi
+
+/-- alt.Decompose under `OmitNil` (without `OmitEmpty`) describes the tree it describes without the
+option, less every object member whose value is null, hereditarily -/
+theorem alt_omitNil_is_dropNulls (d : Dev) (o : Opts) (hn : o.omitNil = true) (he : o.omitEmpty = false)
+    (tf vf : Nat) (t : GoType) (v : GoVal) : encodeA d o tf vf t v = dropNulls (encode .alt d o tf vf t v) := by
+  unfold encodeA encode
+  exact encValA_nilOnly _ o hn he _ vf true false false t v
+
+theorem encVal_omitNil_irrelevant (q : Quirks) (o : Opts) (b : Bool) (plan : Bool → List (FieldHdr × GoType) → List Finfo) :
+    ∀ (vf : Nat) (vi ie oe : Bool) (t : GoType) (v : GoVal),
+      encVal q { o with omitNil := b } plan vf vi ie oe t v = encVal q o plan vf vi ie oe t v := by
+  intro vf
+  induction vf with
+  | zero => intro vi ie oe t v; rfl
+  | succ n ih =>
+    intro vi ie oe t v
+    have ihf : ∀ (a c e : Bool) (ty : GoType),
+        encVal q { o with omitNil := b } plan n a c e ty = encVal q o plan n a c e ty := by
+      intro a c e ty; funext x; exact ih a c e ty x
+    have hc : ∀ name pkg, createMember { o with omitNil := b } name pkg = createMember o name pkg := by
+      intro name pkg; rfl
+    cases t <;> cases v <;> simp only [encVal, ih, ihf, hc]
+
+theorem encode_omitNil_irrelevant (e : Enc) (d : Dev) (o : Opts) (b : Bool) (tf vf : Nat) (t : GoType) (v : GoVal) :
+    encode e d { o with omitNil := b } tf vf t v = encode e d o tf vf t v := by
+  unfold encode
+  have hq : quirksOf e d { o with omitNil := b } = quirksOf e d o := by cases e <;> rfl
+  have hp : planOf e d { o with omitNil := b } tf = planOf e d o tf := by funext om0 fs; cases e <;> rfl
+  rw [hq, hp]
+  exact encVal_omitNil_irrelevant _ o b _ vf true false false t v
+
+/-- **alt.Decompose under `OmitNil` is the documented tree less its null members.** Code as it is,
+every type, value and option combination with `OmitEmpty` off on which the run without `OmitNil`
+meets none of the live exclusions (`untriggered`): with `OmitNil` set, alt.Decompose describes the
+reference tree (`refEncode`, the option documentation) from which every object member whose value is
+null has been removed, hereditarily — "OmitNil skips the writing of nil values in an object". -/
+theorem alt_omitNil_eq_pruned_reference (o : Opts) (hn : o.omitNil = false) (ho : o.omitEmpty = false) (tf vf : Nat)
+    (t : GoType) (v : GoVal)
+    (hU : untriggered .alt Dev.current o tf (planFixed o tf) vf true false t v = true) :
+    encodeA Dev.current { o with omitNil := true } tf vf t v = dropNulls (refEncode o tf vf t v) := by
+  rw [alt_omitNil_is_dropNulls Dev.current { o with omitNil := true } rfl ho,
+    encode_omitNil_irrelevant, untriggered_current_eq_reference .alt o hn ho tf vf t v hU]
+
+def plainOpts : Opts := ⟨false, false, false, false, false, false, false, false, 0, []⟩
+def TPN : GoType := .struct [] [] [(fld "P", .ptr (.int 0)), (fld "N", .int 0)]
+def VPN : GoVal := .struct [.nilPtr, .int 1]
+
+/-- the hypotheses of `alt_omitNil_eq_pruned_reference` are satisfiable, and the statement is not
+vacuous: `struct{P *int; N int}{nil, 1}` is `{"n":1}` under `OmitNil` -/
+example : untriggered .alt Dev.current plainOpts 4 (planFixed plainOpts 4) 4 true false TPN VPN = true ∧
+    jvBeq (encodeA Dev.current { plainOpts with omitNil := true } 4 4 TPN VPN) (.obj [("n".toUTF8.toList, .int 1)]) = true ∧
+    jvBeq (refEncode plainOpts 4 4 TPN VPN) (.obj [("n".toUTF8.toList, .int 1), ("p".toUTF8.toList, .null)]) = true := by
+  decide +kernel
+
+/-! ## pretty.JSON = alt.Decompose under OmitNil alone -/
+
+theorem prettySkip_nilOnly (o : Opts) (hn : o.omitNil = true) (he : o.omitEmpty = false) (j : JV) :
+    prettySkip o j = isNullJ j := by
+  cases j <;> simp [prettySkip, isNullJ, hn, he]
+
+mutual
+  theorem prettyJ_nilOnly (o : Opts) (hn : o.omitNil = true) (he : o.omitEmpty = false) : ∀ j : JV, prettyJ o j = dropNulls j
+    | .arr xs => by simp only [prettyJ, dropNulls, prettyJList_nilOnly o hn he xs]
+    | .obj kvs => by simp only [prettyJ, dropNulls, prettyJKvs_nilOnly o hn he kvs]
+    | .null => rfl
+    | .bool _ => rfl
+    | .int _ => rfl
+    | .flt _ => rfl
+    | .big _ => rfl
+    | .num _ => rfl
+    | .str _ => rfl
+  theorem prettyJList_nilOnly (o : Opts) (hn : o.omitNil = true) (he : o.omitEmpty = false) :
+      ∀ xs : List JV, prettyJList o xs = dropNullsL xs
+    | [] => rfl
+    | x :: r => by simp only [prettyJList, dropNullsL, prettyJ_nilOnly o hn he x, prettyJList_nilOnly o hn he r]
+  theorem prettyJKvs_nilOnly (o : Opts) (hn : o.omitNil = true) (he : o.omitEmpty = false) :
+      ∀ kvs : List (Bytes × JV), prettyJKvs o kvs = dropNullsK kvs
+    | [] => rfl
+    | (k, x) :: r => by
+      simp only [prettyJKvs, dropNullsK, prettySkip_nilOnly o hn he, prettyJ_nilOnly o hn he x, prettyJKvs_nilOnly o hn he r]
+end
+
+mutual
+  theorem dropNulls_idem : ∀ j : JV, dropNulls (dropNulls j) = dropNulls j
+    | .arr xs => by simp only [dropNulls, dropNullsL_idem xs]
+    | .obj kvs => by simp only [dropNulls, dropNullsK_idem kvs]
+    | .null => rfl
+    | .bool _ => rfl
+    | .int _ => rfl
+    | .flt _ => rfl
+    | .big _ => rfl
+    | .num _ => rfl
+    | .str _ => rfl
+  theorem dropNullsL_idem : ∀ xs : List JV, dropNullsL (dropNullsL xs) = dropNullsL xs
+    | [] => rfl
+    | x :: r => by simp only [dropNullsL, dropNulls_idem x, dropNullsL_idem r]
+  theorem dropNullsK_idem : ∀ kvs : List (Bytes × JV), dropNullsK (dropNullsK kvs) = dropNullsK kvs
+    | [] => rfl
+    | (k, x) :: r => by
+      cases h : isNullJ x
+      · simp only [dropNullsK, h, Bool.false_eq_true, ↓reduceIte, isNullJ_dropNulls, dropNulls_idem x, dropNullsK_idem r]
+      · simp only [dropNullsK, h, ↓reduceIte, dropNullsK_idem r]
+end
+
+theorem encVal_iface_flags (q : Quirks) (o : Opts) (plan : Bool → List (FieldHdr × GoType) → List Finfo) (n : Nat)
+    (a b c : Bool) (x : GoVal) :
+    encVal q o plan n a b c .iface x = encVal q o plan n true false false .iface x := by
+  cases n with
+  | zero => rfl
+  | succ m => cases x <;> simp only [encVal]
+
+theorem keepN_congr {k : Bytes} {x y : JV} (h : dropNulls x = dropNulls y) : keepN (k, x) = keepN (k, y) := by
+  have hn : isNullJ x = isNullJ y := by rw [← isNullJ_dropNulls x, ← isNullJ_dropNulls y, h]
+  simp only [keepN, hn, h]
+
+theorem encValP_nilOnly (q : Quirks) (hq : q.mapNilNull = false) (o : Opts) (hn : o.omitNil = true) (he : o.omitEmpty = false)
+    (hs : o.strict = false) (plan : Bool → List (FieldHdr × GoType) → List Finfo) :
+    ∀ (vf : Nat) (t : GoType) (v : GoVal),
+      dropNulls (encValP q o plan vf t v) = dropNulls (encVal q o plan vf true false false t v) := by
+  intro vf
+  induction vf with
+  | zero => intro t v; rfl
+  | succ n ih =>
+    intro t v
+    unfold encValP
+    split
+    · simp only [encVal]
+    · simp only [encVal]; exact ih _ _
+    · simp only [encVal]
+    · rename_i kvs
+      simp only [encVal, hq, Bool.false_and, Bool.false_eq_true, ↓reduceIte, dropNulls, dropNullsK_eq_filterMap, List.filterMap_map]
+      congr 1
+      apply filterMap_congr'
+      intro kv _
+      simp only [Function.comp]
+      apply keepN_congr
+      rw [ih, encVal_iface_flags q o plan n false true false kv.2]
+    · simp only [encVal, hs, Bool.and_false, Bool.false_eq_true, ↓reduceIte]
+    · rename_i xs
+      simp only [encVal, dropNulls, dropNullsL_eq_map, List.map_map]
+      congr 1
+      apply List.map_congr_left
+      intro x _
+      simp only [Function.comp, isPtrT, Bool.and_true, Bool.not_false, Bool.or_true]
+      rw [ih, encVal_iface_flags q o plan n false true _ x]
+    · rw [encValA_nilOnly q o hn he, dropNulls_idem]
+
+/-- pretty.JSON and alt.Decompose agree under `OmitNil` without `OmitEmpty` (code as it is; models
+`encodeP`, `encodeA`): both describe the tree of `encode .alt` less its null members -/
+theorem pretty_alt_agree_omitNil (o : Opts) (hn : o.omitNil = true) (he : o.omitEmpty = false) (hs : o.strict = false)
+    (tf vf : Nat) (t : GoType) (v : GoVal) :
+    encodeP Dev.current o tf vf t v = encodeA Dev.current o tf vf t v := by
+  rw [alt_omitNil_is_dropNulls Dev.current o hn he]
+  unfold encodeP encode
+  rw [prettyJ_nilOnly o hn he]
+  exact encValP_nilOnly _ (by simp [quirksOf, Dev.current]) o hn he hs _ vf t v
+
+/-- the hypotheses are satisfiable (and the two sides are not trivially equal to a failure):
+`map[string]any{"n": nil, "f": false}` under `OmitNil` is `{"f":false}` for both -/
+example : jvBeq (encodeP Dev.current { plainOpts with omitNil := true } 4 4 mapStrAny
+      (.map [("n".toUTF8.toList, .nilIface), ("f".toUTF8.toList, .iface .bool (.bool false))]))
+      (.obj [("f".toUTF8.toList, .bool false)]) = true := by
+  decide +kernel
+
+/-! ## oj / sen under OmitNil away from maps, and the agreement of all encoders there -/
+
+/-- the value is written as null: a nil pointer or a nil interface -/
+def directNil : GoType → GoVal → Bool
+  | .ptr _, .nilPtr => true
+  | .iface, .nilIface => true
+  | _, _ => false
+
+/-- The run of the oj/sen walker on `(t, v)` stays where `OmitNil` means "drop the nil members":
+it meets no map (the reflective map walker and the object writers have rules of their own: they
+also drop empty containers, and keep a nil interface in a typed map), and no pointer or interface
+whose CONTENT is written as null (outside the fragment of the run anyway). Follows the plan like
+`untriggered`. -/
+def omitNilAligned (q : Quirks) (plan : Bool → List (FieldHdr × GoType) → List Finfo) : Nat → Bool → GoType → GoVal → Bool
+  | 0, _, _, _ => true
+  | n + 1, oe, t, v =>
+    match t, v with
+    | .map _, .map _ => false
+    | .iface, .iface dt dv => !directNil dt dv && omitNilAligned q plan n false dt dv
+    | .ptr e, .ptr x => !directNil e x && omitNilAligned q plan n oe e x
+    | .slice e, .slice xs => xs.all (omitNilAligned q plan n (oe && (q.slicePtrPlan || !isPtrT e)) e)
+    | .array _ e, .arr xs => xs.all (omitNilAligned q plan n (oe && (q.slicePtrPlan || !isPtrT e)) e)
+    | .struct _ _ fs, .struct vs =>
+      decide (0 < n) && (plan oe fs).all fun fi =>
+        match fieldByIndex (.struct vs) fi.index with
+        | none => true
+        | some x => omitNilAligned q plan n (childOE q fi) fi.ty x
+    | _, _ => true
+
+theorem bytesAsJV_notNull (n : Nat) (b : Bytes) : isNullJ (bytesAsJV n b) = false := by
+  unfold bytesAsJV
+  split
+  · rfl
+  · split <;> rfl
+
+theorem bytesAsNumbers_notNull (b : Bytes) : isNullJ (bytesAsNumbers b) = false := rfl
+
+/-- on an aligned run, only a nil pointer or nil interface is written as null -/
+theorem null_only_directNil (q : Quirks) (o : Opts) (hs : o.strict = false)
+    (plan : Bool → List (FieldHdr × GoType) → List Finfo) :
+    ∀ (n : Nat) (vi ie oe : Bool) (t : GoType) (v : GoVal), omitNilAligned q plan n oe t v = true →
+      isNullJ (encVal q o plan n vi ie oe t v) = true → directNil t v = true := by
+  intro n
+  induction n with
+  | zero => intro vi ie oe t v _ h; simp [encVal, isNullJ, panicMark] at h
+  | succ m ih =>
+    intro vi ie oe t v ha h
+    cases t <;> cases v <;> simp only [encVal, directNil, apply_ite isNullJ, bytesAsJV_notNull, bytesAsNumbers_notNull] at h ⊢ <;>
+      simp only [omitNilAligned, Bool.and_eq_true, Bool.not_eq_true'] at ha
+    all_goals first
+      | rfl
+      | (exfalso; revert h; simp [isNullJ, panicMark]; done)
+      | skip
+    case iface.iface dt dv =>
+      have := ih true false false dt dv ha.2 h
+      rw [ha.1] at this; exact this
+    case slice.nilSlice e =>
+      exfalso; revert h
+      cases e <;> simp [hs, isNullJ]
+    case ptr.ptr e x =>
+      have := ih false false oe e x ha.2 h
+      rw [ha.1] at this; exact this
+
+theorem fieldNilDropped_eq (o : Opts) (hn : o.omitNil = true) (fi : Finfo) (x : GoVal) :
+    fieldNilDropped o fi x = directNil fi.ty x := by
+  unfold fieldNilDropped directNil
+  simp only [hn, Bool.true_and]
+  split <;> simp_all
+
+theorem fieldMemberO_aligned (q : Quirks) (o : Opts) (hn : o.omitNil = true)
+    (encO enc : Bool → GoType → GoVal → JV) (sv : GoVal) (fi : Finfo)
+    (hx : ∀ x, fieldByIndex sv fi.index = some x →
+      (directNil fi.ty x = true → ∀ vi, enc vi fi.ty x = .null) ∧
+      (directNil fi.ty x = false → ∀ vi, isNullJ (enc vi fi.ty x) = false ∧ encO vi fi.ty x = dropNulls (enc vi fi.ty x))) :
+    fieldMemberO q o encO sv fi = (fieldMember q enc sv fi).bind keepN := by
+  unfold fieldMemberO fieldMember
+  cases hl : fieldByIndex sv fi.index with
+  | none => by_cases h : q.embNilPanic = true <;> simp [h, keepN, isNullJ, panicMark, dropNulls]
+  | some x =>
+    have hx' := hx x hl
+    by_cases h1 : (fi.omitE && isEmptyVal x) = true
+    · simp [h1]
+    · simp only [h1, Bool.false_eq_true, ↓reduceIte]
+      cases h2 : (if fi.asStr = true then scalarText x else none) with
+      | some t => simp [keepN, isNullJ, dropNulls]
+      | none =>
+        simp only [fieldNilDropped_eq o hn]
+        cases hd : directNil fi.ty x with
+        | true =>
+          have e := hx'.1 hd
+          cases hty : fi.ty <;> simp [hty ▸ e, keepN, isNullJ]
+        | false =>
+          have e := hx'.2 hd
+          cases hty : fi.ty <;> simp [keepN, (hty ▸ e _).1, (hty ▸ e _).2]
+
+theorem encVal_directNil (q : Quirks) (o : Opts) (plan : Bool → List (FieldHdr × GoType) → List Finfo) (m : Nat)
+    (vi oe : Bool) (t : GoType) (x : GoVal) (hd : directNil t x = true) :
+    encVal q o plan (m + 1) vi false oe t x = .null := by
+  cases t <;> cases x <;> simp_all [directNil, encVal]
+
+theorem encValO_nilOnly_aligned (q : Quirks) (o : Opts) (hn : o.omitNil = true) (hs : o.strict = false) (sd : Bool)
+    (plan : Bool → List (FieldHdr × GoType) → List Finfo) :
+    ∀ (vf : Nat) (vi ie oe : Bool) (t : GoType) (v : GoVal), omitNilAligned q plan vf oe t v = true →
+      encValO q o sd plan vf vi ie oe t v = dropNulls (encVal q o plan vf vi ie oe t v) := by
+  intro vf
+  induction vf with
+  | zero => intro vi ie oe t v _; rfl
+  | succ n ih =>
+    intro vi ie oe t v ha
+    cases t <;> cases v <;>
+      simp only [encValO, encVal, dropNulls, dropNulls_panicMark, dropNulls_bytesAsNumbers, dropNulls_bytesAsJV,
+        apply_ite dropNulls, dropNullsK] <;>
+      simp only [omitNilAligned, Bool.and_eq_true, Bool.not_eq_true', List.all_eq_true, decide_eq_true_eq] at ha
+    case map.map e kvs => cases ha
+    case iface.iface dt dv => exact ih true false false dt dv ha.2
+    case ptr.ptr e x => exact ih false false oe e x ha.2
+    case slice.nilSlice e => cases e <;> simp [dropNulls, dropNullsL, apply_ite dropNulls]
+    case slice.slice e xs =>
+      simp only [dropNullsL_eq_map, List.map_map]
+      congr 1
+      apply List.map_congr_left
+      intro x hx
+      exact ih false true _ e x (ha x hx)
+    case array.arr k e xs =>
+      simp only [dropNullsL_eq_map, List.map_map]
+      congr 1
+      apply List.map_congr_left
+      intro x hx
+      exact ih false true _ e x (ha x hx)
+    case struct.struct name pkg fs vs =>
+      obtain ⟨hpos, hall⟩ := ha
+      obtain ⟨m, rfl⟩ : ∃ m, n = m + 1 := ⟨n - 1, by omega⟩
+      simp only [dropNullsK_eq_filterMap, List.filterMap_append]
+      congr 1
+      congr 1
+      · unfold createMember
+        split <;> simp [keepN, isNullJ, dropNulls]
+      · rw [List.filterMap_filterMap]
+        apply filterMap_congr'
+        intro fi hfi
+        apply fieldMemberO_aligned q o hn
+        intro x hl
+        have hal := hall fi hfi
+        rw [hl] at hal
+        constructor
+        · intro hd vi'
+          exact encVal_directNil q o plan m vi' _ fi.ty x hd
+        · intro hd vi'
+          constructor
+          · cases hnull : isNullJ (encVal q o plan (m + 1) vi' false (childOE q fi) fi.ty x) with
+            | false => rfl
+            | true =>
+              have := null_only_directNil q o hs plan (m + 1) vi' false (childOE q fi) fi.ty x hal hnull
+              rw [hd] at this; cases this
+          · exact ih vi' false (childOE q fi) fi.ty x hal
+
+/-- **oj and sen under `OmitNil` alone, away from maps**: code as it is (any quirks), `OmitNil` on (whatever
+`OmitEmpty` says: the plan-level omission is in `encode` already), not `oj.Marshal`: on every run that is `omitNilAligned` (no map is met, no pointer or
+interface whose content is written as null) the oj/sen writers describe the tree they describe without
+the option, less every object member whose value is null, hereditarily — tight and indented alike. -/
+theorem oj_omitNil_is_dropNulls_partial (e : Enc) (d : Dev) (o : Opts) (hn : o.omitNil = true)
+    (hs : o.strict = false) (tf vf : Nat) (t : GoType) (v : GoVal)
+    (ha : omitNilAligned (quirksOf e d o) (planOf e d o tf) vf false t v = true) :
+    encodeO e d o tf vf t v = dropNulls (encode e d o tf vf t v) := by
+  unfold encodeO encodeOWith encode
+  exact encValO_nilOnly_aligned _ o hn hs _ _ vf true false false t v ha
+
+/-- **All encoders agree under `OmitNil`** (code as it is; `OmitEmpty` off, not strict) on every run
+that meets none of the live exclusions of `encoders_agree_current` (`untriggered`, for the writer and
+for alt) and on which the oj/sen walker meets no map and no pointer or interface whose content is
+written as null (`omitNilAligned`, the named exclusion: in maps the oj/sen writers also drop empty
+containers and keep nil interfaces — part of known finding `C15-omit-options`): oj / sen (tight and
+indented), alt.Decompose and pretty.JSON all describe the documented reference tree less its null
+members. -/
+theorem encoders_agree_current_omitNil_partial (e : Enc) (o : Opts) (hn : o.omitNil = false) (ho : o.omitEmpty = false)
+    (hs : o.strict = false) (tf vf : Nat) (t : GoType) (v : GoVal)
+    (hU : untriggered e Dev.current o tf (planFixed o tf) vf true false t v = true)
+    (hA : untriggered .alt Dev.current o tf (planFixed o tf) vf true false t v = true)
+    (ha : omitNilAligned (quirksOf e Dev.current { o with omitNil := true }) (planOf e Dev.current { o with omitNil := true } tf)
+      vf false t v = true) :
+    encodeO e Dev.current { o with omitNil := true } tf vf t v = dropNulls (refEncode o tf vf t v) ∧
+    encodeA Dev.current { o with omitNil := true } tf vf t v = dropNulls (refEncode o tf vf t v) ∧
+    encodeP Dev.current { o with omitNil := true } tf vf t v = dropNulls (refEncode o tf vf t v) := by
+  have h2 := alt_omitNil_eq_pruned_reference o hn ho tf vf t v hA
+  refine ⟨?_, h2, ?_⟩
+  · rw [oj_omitNil_is_dropNulls_partial e Dev.current { o with omitNil := true } rfl hs tf vf t v ha,
+      encode_omitNil_irrelevant, untriggered_current_eq_reference e o hn ho tf vf t v hU]
+  · rw [pretty_alt_agree_omitNil { o with omitNil := true } rfl ho hs, h2]
+
+/-- the hypotheses are satisfiable: `struct{P *int; N int}{nil, 1}` — every encoder gives `{"n":1}` -/
+example : untriggered .oj Dev.current plainOpts 4 (planFixed plainOpts 4) 4 true false TPN VPN = true ∧
+    untriggered .alt Dev.current plainOpts 4 (planFixed plainOpts 4) 4 true false TPN VPN = true ∧
+    omitNilAligned (quirksOf .oj Dev.current { plainOpts with omitNil := true })
+      (planOf .oj Dev.current { plainOpts with omitNil := true } 4) 4 false TPN VPN = true ∧
+    jvBeq (encodeO .oj Dev.current { plainOpts with omitNil := true } 4 4 TPN VPN) (.obj [("n".toUTF8.toList, .int 1)]) = true := by
   decide +kernel
 
 end OjgVerif.C15
